@@ -633,7 +633,7 @@ class CompletionMonitor : public Monitor {
   std::vector<int> inflight, completions;
   bool failed = false;
   void fail(const std::string& sig, const std::string& d) { if (!failed) sink->add("C04/" + sig, d); failed = true; }
-  std::string rq(int r) const { return "request #" + std::to_string(r) + " (" + ref::hex(w->sc.reqs[r].master) + ", " + (w->sc.reqs[r].kind == 1 ? "self-deleting" : "waited") + (w->sc.reqs[r].restarts ? ", restarting" : "") + ")"; }
+  std::string rq(int r) const { return "request #" + std::to_string(r) + " (" + ref::hex(w->sc.reqs[r].master) + ", " + (w->sc.reqs[r].kind == 2 ? "real PollRequest" : w->sc.reqs[r].kind == 1 ? "self-deleting" : "waited") + (w->sc.reqs[r].restarts ? ", restarting" : "") + ")"; }
   void onEnqueue(int r) override { inflight[r]++; }
   void onNotify(int r, int result, const Bytes&, bool restart) override {
     if (failed) return;
@@ -652,7 +652,7 @@ class CompletionMonitor : public Monitor {
   void onQuiescent(bool) override {
     if (failed || w->h == nullptr) return;
     for (size_t i = 0; i < inflight.size(); i++) {
-      TReq* r = w->reqObj[i];
+      BusRequest* r = w->reqObj[i];
       bool waited = w->sc.reqs[i].kind == 0;
       if (w->reqState[i] == 2) {  // completed
         if (r != nullptr) {
@@ -679,6 +679,12 @@ class CompletionMonitor : public Monitor {
     if (!w->sc.drainAtEnd) return;
     for (size_t i = 0; i < inflight.size(); i++) {
       if (inflight[i] > 0) { fail("never-completed", rq((int)i) + " was never completed although the signal was lost at the end"); return; }
+    }
+  }
+  void onLivelock() override {
+    if (failed) return;
+    for (size_t i = 0; i < inflight.size(); i++) {
+      if (inflight[i] > 0) { fail("never-completed/livelock", rq((int)i) + " is still in flight while the system loops through the same states forever (e.g. endless restart)"); return; }
     }
   }
   void fingerprint(std::string* o) const override {
